@@ -119,3 +119,12 @@ def fill(claim, NA):
 		  "minimisation over r, EIL / EOQ+SS / EOQB approximations vs their defining equations (SciPy-side labelled tests).",
 		  "Trusted: Lean kernel + 3 axioms; harness; SciPy (poisson pmf/cdf, norm, quad, fsolve) as black boxes. Open: global optimality of the search for unimodal G (fz_optimal) "
 		  "- currently local stopping certificate + exhaustive window per instance; normal-demand clauses are numerical (quad).")
+
+	claim('C12',
+		  "Theorems (Props/C12.lean): bellman (for every period and state the reported cost is attained at the reported order-up-to level y* in [x, x_max], no y >= x on the grid is "
+		  "cheaper, and y* is the first minimiser), bestAt_unique, eval_reproduces_opt (evaluation mode with the optimiser's order-up-to row reproduces the cost row), cost_le_stay, "
+		  "cand_shift + K_zero_base_stock (K_t = 0: every state at or below S orders up to exactly S, no state above S does) + reorderPos_eq (so the extracted reorder point equals the "
+		  "order-up-to level), solve_shape (defined for every horizon length incl. T = 1). Tie: every cell of cost_matrix vs the exact model fed with the code's own probability tables "
+		  "and the DOCUMENTED one-period cost (1e-8), oul by objective value, (s,S) extraction, evaluation mode, K=0, T=1; myopic bounds per instance (labelled test).",
+		  "Trusted: Lean kernel + 3 axioms; harness; SciPy pmf/cdf and the loss-function values (inputs); FP in the grid-truncation rules (re-derived in the harness). "
+		  "Range doubling is handled by taking the x_range the code returns (the model reports whether the optimum sits at the top of the grid).")
